@@ -299,6 +299,10 @@ def check(tier="quick", seed=0, workers=None, only=None):
     specs = [] if only else c05.seq_specs(tier)
     st = engine.explore_many(specs, workers=workers, bound=1, seed=seed, max_violations=200) if specs else engine.Stats(bound=1)
     viols += common.collect(st, ("C15",))
+    from . import conc
+    cst, cinfo = conc.run_for("C15", tier, seed, workers, only) if not only else (engine.Stats(bound=None), {})
+    viols += common.collect(cst, ("C15",))
+    st.evaluations += cst.evaluations
     by_stage = {}
     for c in allc:
         by_stage[c[0]] = by_stage.get(c[0], 0) + 1
@@ -307,7 +311,7 @@ def check(tier="quick", seed=0, workers=None, only=None):
                     "(a2) frame type x flags x stream id x payload at three positions, declared lengths, HPACK and :status variants; (b) all token sequences up to length %d; "
                     "(c) every fault kind at every operation of every connection type; sync and async; distinct class = (stage, outcome exception class)" % (3 if tier == "quick" else 4)),
            "samples": [{"stage": c[0], "input": c[1], "bytes": c[2][:60].hex()} for c in allc[:: max(1, len(allc) // 6)][:6]],
-           "inputs_by_stage": by_stage, "outcome_classes": sorted(map(str, classes))[:60], "fault_enumeration_executions": st.evaluations}
+           "inputs_by_stage": by_stage, "outcome_classes": sorted(map(str, classes))[:60], "fault_enumeration_executions": st.evaluations, "concurrent_h2_peer_events": cinfo}
     return {"level": "exploration", "coverage": cov, "violations": viols,
             "assumptions": ["after the scripted bytes the peer closes; a mutation that leaves the conversation valid (or merely truncates a close-delimited body) may succeed",
                             "class must match the cause: peer data => RemoteProtocolError (ProxyError at proxy/SOCKS stages), never LocalProtocolError / timeouts / connect or write errors"]}
